@@ -245,6 +245,32 @@ def run(R):
                 if r_is:   # normalise to counter OP limit
                     op = {"Ge": "Le", "Le": "Ge", "Gt": "Lt", "Lt": "Gt"}[op]
                 return (op == "Ge" and val is False) or (op == "Lt" and val is True)
+            # the remaining budget, computed once: `limit.map(|l| l.saturating_sub(counter)) == Some(0)` is false
+            c_ = a.get("call")
+            if a.get("kind") == "call" and c_ is not None and val is False and \
+                    re.search(r"^<core::option::Option<T> as core::cmp::PartialEq>::eq$", short(c_.name)) and len(c_.args) == 2:
+                sides = [F.origins(efv, x, depth=8) for x in c_.args]
+                rem = zero = False
+                for os_ in sides:
+                    for o in os_:
+                        if o.kind == "call" and short(o.call.name) == "core::option::Option::map" and \
+                                "limit" in F.provenance_fields(efv, o.call.args[0], depth=8):
+                            for ck in (o.call.func.get("closure_args") or []):
+                                g_ = P.fns.get(ck)
+                                if g_ is None:
+                                    continue
+                                for c2 in g_.calls:
+                                    if re.search(r"usize>::(saturating_sub|checked_sub)$", short(c2.name)) and len(c2.args) == 2 and \
+                                            c2.args[1].get("k") in ("copy", "move") and counter in F.provenance_fields(g_, c2.args[1], depth=8):
+                                        rem = True
+                        if o.kind == "const" and o.const is not None and "promoted" in o.const and o.const["promoted"] < len(efv.promoted):
+                            for pb in efv.promoted[o.const["promoted"]]["blocks"]:
+                                for ps in pb["stmts"]:
+                                    if ps["k"] == "assign" and ps["rv"]["k"] == "aggr" and ps["rv"].get("variant") == "Some" and \
+                                            len(ps["rv"]["ops"]) == 1 and ps["rv"]["ops"][0].get("k") == "const" and \
+                                            str(ps["rv"]["ops"][0].get("int", ps["rv"]["ops"][0].get("v"))).split("_")[0] == "0":
+                                        zero = True
+                return rem and zero
             return False
         pre = fa.ok and fa.every_path(ev.bb, no_budget_left_excluded)
         e = es[0]
